@@ -11,6 +11,8 @@ Decided:
              order loop) and selects among all computed orders: what makes a constant non-zero block cost a few bytes
   C19.kind   narrowing 5-bit Rice parameters to 4 bits keeps each partition's kind (Constant stays Constant)
   C19.cache  scratch buffers and recorders are reset before each block (cachelib, shared with C01/C02/C16)
+  C19.orders (also) the order-collecting loop exits only for structural reasons (short block, overflow, empty); partition orders tried are 0..=limit
+  C19.cache  (also) per-channel caches are not sized once behind is_empty()
 Not decided: the numeric bound itself (header sizes, Rice estimate accuracy).
 """
 from rules.common import *
@@ -128,13 +130,19 @@ def run(ctx, rep):
     hb = [x for x in F.bodies if x.promoted is None and x.kind != "Closure" and strip_generics(x.path) == "encode::write_residuals::try_shrink_header"]
     if not hb:
         rep.bad("C19.kind", "anchor:write_residuals::try_shrink_header", "", "not found")
-    for x in hb[:1]:
-        pfh = ok.path_facts(x)
+    for x0 in hb[:1]:
+        pfh = ok.path_facts(x0)
         rows = 0
-        for bi, bl in enumerate(x.blocks):
+        for x in region(F, x0):
+          for bi, bl in enumerate(x.blocks):
             for s_ in bl["s"]:
                 if s_["rv"]["r"] == "agg" and "ResidualPartitionHeader" in str(s_["rv"].get("adt")):
-                    f = pfh.get(bi, TOP)
+                    if x is x0:
+                        f = pfh.get(bi, TOP)
+                    else:
+                        # built by a closure (`.map(|rice| Standard { rice })`): what holds where the closure is created
+                        built = [bj for bj, bl2 in enumerate(x0.blocks) for s2 in bl2["s"] if s2["rv"]["r"] == "agg" and s2["rv"].get("ak") == "closure" and s2["rv"].get("adt") == x.path]
+                        f = pfh.get(built[0], TOP) if len(built) == 1 else frozenset()
                     src = [y[1] for y in (f or ()) if f is not TOP and y[0] == "is" and y[1] in ("Standard", "Escaped", "Constant") and "header" in str(y[2])]
                     rows += 1
                     rep.check("C19.kind", "try_shrink_header maps a %s partition to a %s partition" % (s_["rv"]["var"], s_["rv"]["var"]), src == [s_["rv"]["var"]], x.loc(s_["sp"]), str(src),
@@ -168,7 +176,7 @@ def run(ctx, rep):
                 st_.extend(fb.succs(x))
             return seen
         inloop = [pb for pb in pushes if pb in reach(pb)]
-        STRUCT = re.compile(r"(::next|::checked_\w+|::overflowing_\w+|::split_at_checked|::split_first|::split_at|::is_empty|::len|::get|::first|::last|::last_mut|::branch|::into_iter|::iter|::iter_mut|::zip|::deref|::deref_mut|::as_slice|::as_mut_slice|::index|::index_mut|::try_from|::from|::clear|::unwrap|::push|::new|::as_ref|::borrow)$")
+        STRUCT = re.compile(r"(::next|::checked_\w+|::overflowing_\w+|::split_at_checked|::split_first|::split_at|::is_empty|::len|::get|::first|::last|::last_mut|::branch|::into_iter|::iter|::iter_mut|::zip|::deref|::deref_mut|::as_slice|::as_mut_slice|::index|::index_mut|::try_from|::from|::clear|::unwrap|::push|::new|::as_ref|::borrow|::from_residual|::from_output|::is_some|::is_none|::then_some|::ok_or|::ok)$")
         if len(inloop) != 1:
             rep.bad("C19.orders", "anchor:order-collecting loop of encode_fixed_subframe", loc_of(fb), "%d pushes inside a loop" % len(inloop))
         else:
@@ -188,31 +196,8 @@ def run(ctx, rep):
     # block has no other), and the limit itself is tried; an exclusive range must add the one back after taking the minimum
     pb = anchor(F, rep, "C19.orders", "encode::write_residuals::best_partitions")
     if pb is not None:
-        incl = [t for _, t in pb.calls() if re.search(r"RangeInclusive::<Idx>::new$", callee_name(t)) and t["f"]["args"] == ["u32"]]
-        excl = [st_ for bl in pb.blocks for st_ in bl["s"] if st_["rv"]["r"] == "agg" and st_["rv"].get("adt") == "std::ops::Range" and op_const(st_["rv"]["ops"][0]) and op_const(st_["rv"]["ops"][0])["ty"] == "u32"]
-        good, how = False, "no u32 range of orders found"
-        if len(incl) + len(excl) == 1:
-            if incl:
-                good, how = op_int(incl[0]["a"][0]) == 0, "0..=limit"
-            else:
-                good = op_int(excl[0]["rv"]["ops"][0]) == 0
-                o = excl[0]["rv"]["ops"][1]
-                plus_one = False
-                for _ in range(4):
-                    pl = op_place(o)
-                    if pl is None:
-                        break
-                    ds = [d for d in pb.defs().get(pl["l"], []) if not d[2]["d"]["p"]]
-                    if len(ds) != 1 or ds[0][1] == "T":
-                        break
-                    rv = ds[0][2]["rv"]
-                    if rv["r"] == "bin" and rv["op"] in ("Add", "AddWithOverflow", "AddUnchecked") and (op_int(rv["b"]) == 1 or op_int(rv["a"]) == 1):
-                        plus_one = True
-                        break
-                    if rv["r"] != "use":
-                        break
-                    o = rv["o"]
-                good, how = good and plus_one, "0..limit" + (" + 1" if plus_one else " (the end is not `limit + 1`)")
+        lim, how = inclusive_range_limit(pb)
+        good = lim is not None
         rep.check("C19.orders", "best_partitions tries every partition order from 0 up to and including the limit", good, loc_of(pb), how,
                   "the partition orders tried are %s: for some block lengths (odd ones have only order 0) no Rice-coded layout is tried at all and the block falls back to 31-bit escapes / verbatim" % how)
     # keys: closures passed to min_by_key in encode_subframe / correlate_channels_exhaustive use written()
